@@ -411,21 +411,31 @@ def search_family(fam, prop):
 # ---------------------------------------------------------------------------
 # Session histories (C15): fixed multi-query histories with the reply the property dictates
 _SESSIONS = [
-    (['--ans', '3 m', 'ans * 2', 'ans * 2'], '12 meter (length)'),
-    (['--ans', '3 m', '10 ft -> inch', 'ans'], '3 meter (length)'),
-    (['--ans', '5 kg', '255 -> hex', 'ans'], '5 kilogram (mass)'),
-    (['--ans', '3 m', 'foo bar baz', 'ans'], '3 meter (length)'),
-    (['--ans', '3 m', 'units for length', 'ans'], '3 meter (length)'),
-    (['--ans', '3 m', 'meter', 'ans'], '3 meter (length)'),
-    (['--ans', '3 m', 'search foo', 'ans'], '3 meter (length)'),
-    (['--ans', '3 m', '5 s', 'ans'], '5 second (time)'),
-    (['--ans', '3 m', 'factorize velocity', 'ans'], '3 meter (length)'),
-    (['3 m', ':ans on', 'ans * 2'], 'ERR No such unit ans'),
-    (['--ans', '3 m', ':ans off', '7 kg', ':ans on', 'ans'], '3 meter (length)'),
-    (['--ans', '2', 'ans + 1', 'ans + 1', 'ans + 1'], '5 (dimensionless)'),
-    (['--ans', '3 m', 'ANS', '_ * 2'], '6 meter (length)'),
-    (['--ans', '1 m', '2 m', 'meter', 'ans'], '2 meter (length)'),
+    (['--ans', '3 m', 'ans * 2', 'ans * 2'], 'RAW 12/1 | m:1'),
+    (['--ans', '3 m', '10 ft -> inch', 'ans'], 'RAW 3/1 | m:1'),
+    (['--ans', '5 kg', '255 -> hex', 'ans'], 'RAW 5/1 | kg:1'),
+    (['--ans', '3 m', 'foo bar baz', 'ans'], 'RAW 3/1 | m:1'),
+    (['--ans', '3 m', 'units for length', 'ans'], 'RAW 3/1 | m:1'),
+    (['--ans', '3 m', 'meter', 'ans'], 'RAW 3/1 | m:1'),
+    (['--ans', '3 m', 'search foo', 'ans'], 'RAW 3/1 | m:1'),
+    (['--ans', '3 m', '5 s', 'ans'], 'RAW 5/1 | s:1'),
+    (['--ans', '3 m', 'factorize velocity', 'ans'], 'RAW 3/1 | m:1'),
+    (['3 m', ':ans on', 'ans * 2'], 'ERR'),
+    (['--ans', '3 m', ':ans off', '7 kg', ':ans on', 'ans'], 'RAW 3/1 | m:1'),
+    (['--ans', '2', 'ans + 1', 'ans + 1', 'ans + 1'], 'RAW 5/1 | '),
+    (['--ans', '3 m', 'ANS', '_ * 2'], 'RAW 6/1 | m:1'),
+    (['--ans', '1 m', '2 m', 'meter', 'ans'], 'RAW 2/1 | m:1'),
 ]
+
+
+def _session_ok(reply, want):
+    """the last reply of a history against what the property dictates: its value and dimensionality (how a reply is printed is not
+    this property's business), or that it is an error"""
+    first = reply.splitlines()[0] if reply else ''
+    if want == 'ERR':
+        return first.startswith('ERR')
+    raws = [l[4:] for l in reply.splitlines() if l.startswith('RAW ')]
+    return bool(raws) and _norm_raw(raws[-1]) == _norm_raw(want[4:])
 
 
 def _session_witness():
@@ -437,7 +447,7 @@ def _session_witness():
         last = blocks[-1] if blocks else ''
         reply = '\n'.join(last.split('\n')[1:]).strip()
         first = reply.splitlines()[0] if reply else ''
-        ok = first.startswith(want) if want.startswith('ERR') else first == want
+        ok = _session_ok(reply, want)
         if 'PANIC' in so:
             ok = False
         if not ok:
@@ -479,7 +489,7 @@ def replay(rep):  # noqa: F811
         reply = '\n'.join((blocks[-1] if blocks else '').split('\n')[1:]).strip()
         first = reply.splitlines()[0] if reply else ''
         want = i['expected_last_reply']
-        ok = first.startswith(want) if want.startswith('ERR') else first == want
+        ok = _session_ok(reply, want)
         print('expected last reply: %r' % want)
         print('replay: %s' % ('not reproduced' if ok and 'PANIC' not in so else 'violation reproduced on the real code'))
         return 0 if ok else 1
@@ -1039,7 +1049,7 @@ def _substance_witness():
     # wrong dimensionality of the amount
     for line in ('mass of 3 m water', 'volume of 3 s water', 'mass of (0 m water)', 'volume of (0 s water)', 'mass of ((3 - 3) m water)', 'mass of 2 kg gold'):
         t, v, r = q(line)
-        if line != 'mass of 2 kg gold' and not t.startswith('ERR Conformance'):
+        if line != 'mass of 2 kg gold' and not (t.startswith('ERR') and '\nSUGGESTIONS ' in t):
             return bad(line, 'a conformance error', t, 'an amount of the wrong dimensionality is not refused with a conformance error')
     # formulas: exact count-weighted sums
     mm = {}
@@ -1324,7 +1334,7 @@ def _loader_witness():
             return (text, 'loading aborts: status %s %s' % (rc, one_line(se or so, 200)))
         if '2000 meter' not in so:
             return (text, 'after loading, `2 km -> m` no longer answers 2000 meter: %s' % one_line(so, 200))
-        if kind == 'cycle' and 'dependency cycle' not in first:
+        if kind == 'cycle' and not any(w in first.lower() for w in ('cycle', 'cyclic', 'circular', 'recursi', 'itself')):
             return (text, 'the dependency cycle is not reported: %s' % one_line(first, 200))
         if kind == 'partial':
             if 'Err(' not in first or 'znothing' not in first:
